@@ -113,10 +113,15 @@ def run(ctx):
             ctx.count(1, ("stream-interleave", facts2["n"], facts2["k"], facts2["pos"]))
             for w in f2:
                 si_fails.append((w, facts2))
+        for i in range(ctx.n(3, 12)):
+            f3, facts3 = K.long_run_case(rng, dbdir, "c21")
+            ctx.count(1, ("long-run", facts3["n"]))
+            for w in f3:
+                si_fails.append((w, facts3))
         ctx.programs += nsi
         ctx.suite("connstore.stream_interleave", cases=nsi, failures=len(si_fails))
         for w, facts2 in si_fails[:2]:
-            ctx.violation("C21 fails on the real code: " + w, dict(kind="implementation-monitor", scenario="stream_ticks interleaved with append_tick",
+            ctx.violation("C21 fails on the real code: " + w, dict(kind="implementation-monitor", scenario="stream_ticks interleaved with append_tick / a run longer than any page size",
                                                                  input=facts2))
     finally:
         shutil.rmtree(dbdir, ignore_errors=True)
